@@ -65,4 +65,33 @@ Definition sorted_find2 (els : list A) (e : A) : Z * bool :=
   | [] => (0, false)
   | _ => bsearch els e
   end.
+(* ---------------------------------------------------------------- call sequences on one array *)
+Inductive sop := SIns (e : A) (skipeq : bool) | SRm (e : A) | SFind (e : A) | SFind2 (e : A).
+Inductive sout := SOIdx (i : Z) | SOFind2 (i : Z) (f : bool).
+
+Definition sa_step (els : list A) (op : sop) : list A * sout :=
+  match op with
+  | SIns e sk => let '(els', i) := sorted_insert els e sk in (els', SOIdx i)
+  | SRm e => let '(els', i) := sorted_remove els e in (els', SOIdx i)
+  | SFind e => (els, SOIdx (sorted_find els e))
+  | SFind2 e => let '(i, f) := sorted_find2 els e in (els, SOFind2 i f)
+  end.
+Fixpoint sa_run (els : list A) (ops : list sop) : list sout :=
+  match ops with [] => [] | op :: t => let '(els', o) := sa_step els op in o :: sa_run els' t end.
+Definition sa_exec (els : list A) (ops : list sop) : list A := fold_left (fun s op => fst (sa_step s op)) ops els.
+
+(* reference: the ascending list of the keys, with multiplicity *)
+Variable key : A -> Z.
+Fixpoint k_ins (k : Z) (s : list Z) : list Z :=
+  match s with [] => [k] | x :: t => if k <=? x then k :: s else x :: k_ins k t end.
+Fixpoint k_del (k : Z) (s : list Z) : list Z :=
+  match s with [] => [] | x :: t => if k =? x then t else x :: k_del k t end.
+Definition k_mem (k : Z) (s : list Z) : bool := existsb (Z.eqb k) s.
+Definition k_step (s : list Z) (op : sop) : list Z :=
+  match op with
+  | SIns e sk => if sk && k_mem (key e) s then s else k_ins (key e) s
+  | SRm e => k_del (key e) s
+  | _ => s
+  end.
+Definition k_exec (s : list Z) (ops : list sop) : list Z := fold_left k_step ops s.
 End Sarr.
